@@ -186,6 +186,29 @@ def check(prog, run):
                         "with side 2 has its mirror, and no call compares a side with itself", 3)
     symmetric_comparisons(prog, run, r8)
 
+    # ---- R9 enclosing type of a spread is the parent type of the selection set
+    r9 = run.rule("R9", "both handlers of PossibleFragmentSpreadsChecker take the enclosing type passed to types_overlap from "
+                        "type_info.parent_type (the unwrapped type of the enclosing selection set), never from type_info.type "
+                        "(the enclosing field's declared type, wrappers included)", 2)
+    pf = rcs.get("PossibleFragmentSpreadsChecker")
+    shapes.require(pf is not None, "C06.R9: PossibleFragmentSpreadsChecker not found")
+    for hname in ("enter_fragment_spread", "enter_inline_fragment"):
+        hm = pf.methods.get(hname)
+        shapes.require(hm is not None, "C06.R9: %s not found" % hname)
+        run.looked_at(hm)
+        calls = [n for n in own_nodes(hm.node) if isinstance(n, ast.Call) and isinstance(n.func, ast.Attribute) and n.func.attr == "types_overlap"]
+        shapes.require(len(calls) == 1 and len(calls[0].args) == 2, "C06.R9: types_overlap call not found in %s" % hname)
+        enclosing = calls[0].args[1]
+        src = None
+        if isinstance(enclosing, ast.Name):
+            defs = [x.value for x in own_nodes(hm.node) if isinstance(x, ast.Assign) and ast.unparse(x.targets[0]) == enclosing.id]
+            src = ast.unparse(defs[0]) if len(defs) == 1 else None
+        r9.instance("%s: enclosing type `%s` = %s" % (hname, ast.unparse(enclosing), src))
+        if src != "self.type_info.parent_type":
+            run.report(r9, "%s:PossibleFragmentSpreadsChecker.%s:enclosing-type(%s)" % (RULES, hname, src), hm.where(calls[0]),
+                       "the enclosing type compared with the fragment type is `%s`: for a list or non-null field it is a wrapper, the "
+                       "composite-type test fails and impossible spreads under such fields are accepted" % src)
+
     # ---- R4 per-usage records
     r = run.rule("R4", "variable usages checked by VariablesInAllowedPositionChecker come from a container that records every "
                        "usage (appended per occurrence), not from a mapping keyed by the variable name alone", 1)
